@@ -12,7 +12,7 @@ use crate::{
         definitions::{InMemoryLmsPublicKey, LmsPublicKey},
         signing::{InMemoryLmsSignature, LmsSignature},
     },
-    util::helper::read_and_advance,
+    util::helper::read_and_advance_checked,
     HashChain,
 };
 
@@ -145,18 +145,26 @@ impl<'a, H: HashChain> InMemoryHssSignature<'a, H> {
     pub fn new(data: &'a [u8]) -> Option<Self> {
         let mut index = 0;
 
-        let level =
-            u32::from_be_bytes(read_and_advance(data, 4, &mut index).try_into().unwrap()) as usize;
+        let level = u32::from_be_bytes(
+            read_and_advance_checked(data, 4, &mut index)?
+                .try_into()
+                .ok()?,
+        ) as usize;
+
+        if level >= MAX_ALLOWED_HSS_LEVELS {
+            return None;
+        }
 
         let mut signed_public_keys = ArrayVec::new();
 
         for _ in 0..level {
-            let signed_public_key = InMemoryHssSignedPublicKey::<'a, H>::new(&data[index..])?;
+            let signed_public_key =
+                InMemoryHssSignedPublicKey::<'a, H>::new(data.get(index..)?)?;
             index += signed_public_key.len();
             signed_public_keys.push(Some(signed_public_key));
         }
 
-        let signature = InMemoryLmsSignature::<'a, H>::new(&data[index..])?;
+        let signature = InMemoryLmsSignature::<'a, H>::new(data.get(index..)?)?;
 
         Some(Self {
             level,
@@ -216,7 +224,7 @@ impl<'a, H: HashChain> InMemoryHssSignedPublicKey<'a, H> {
             sig.lms_parameter.get_tree_height() as usize,
         );
 
-        let public_key = InMemoryLmsPublicKey::new(&data[sig_size..])?;
+        let public_key = InMemoryLmsPublicKey::new(data.get(sig_size..)?)?;
 
         Some(Self { sig, public_key })
     }
